@@ -485,12 +485,18 @@ fn answer(a: &[&str]) -> String {
             let mut i = 6;
             while i + 1 < a.len() {
                 let v: u16 = a[i + 1].parse().unwrap();
-                obj.put(DataElement::new(tg(a[i]), if k % 2 == 0 { VR::US } else { VR::LO }, PrimitiveValue::U16([v].into_iter().collect())));
+                if k == 0 && (a[1] == "SetEmpty" || a[1] == "ReplaceEmpty") {
+                    // the first element is a data set sequence with one empty item
+                    obj.put(DataElement::new(tg(a[i]), VR::SQ, dicom_core::value::DataSetSequence::from(vec![InMemDicomObject::new_empty()])));
+                } else {
+                    obj.put(DataElement::new(tg(a[i]), if k % 2 == 0 { VR::US } else { VR::LO }, PrimitiveValue::U16([v].into_iter().collect())));
+                }
                 k += 1; i += 2;
             }
             let pv = PrimitiveValue::U16([newval].into_iter().collect());
             let action = match a[1] {
                 "Remove" => AttributeAction::Remove, "Empty" => AttributeAction::Empty, "SetVr" => AttributeAction::SetVr(newvr),
+                "SetEmpty" => AttributeAction::Set(PrimitiveValue::Empty), "ReplaceEmpty" => AttributeAction::Replace(PrimitiveValue::Empty),
                 "Set" => AttributeAction::Set(pv), "SetStr" => AttributeAction::SetStr(newtext.into()), "SetIfMissing" => AttributeAction::SetIfMissing(pv),
                 "SetStrIfMissing" => AttributeAction::SetStrIfMissing(newtext.into()), "Replace" => AttributeAction::Replace(pv), _ => AttributeAction::ReplaceStr(newtext.into()),
             };
